@@ -10,7 +10,7 @@ from leanfmt import cps, lean_list
 
 ID = "C02"
 LEAN_MODULES = ["EzdxfVerif.Props.C02"]
-DRIVER_DEPS = ["EzdxfVerif.Model.Storage", "EzdxfVerif.Gen.StorageTables", "Drivers.Proto"]
+DRIVER_DEPS = ["EzdxfVerif.Model.Storage", "EzdxfVerif.Model.StorageDoc", "EzdxfVerif.Gen.StorageTables", "Drivers.Proto"]
 RULE = (
     "correspondence X1: generated entity tag lists (well-formed in ezdxf's order, well-formed in shuffled base-class order, "
     "malformed: foreign base-class tags, duplicate XDATA appids / app-data keys, alternative closing tags, unresolved or "
@@ -22,29 +22,58 @@ RULE = (
     "property stacks and CLASS key lists vs the real HeaderSection / ClassesSection. distinct by hash of the request line. "
     "oracle: whole files R2000..R2018 (ASCII and binary in, ASCII and binary out) = ezdxf.new() output with foreign content "
     "spliced in at tag level, through ezdxf.readfile/read -> saveas/write, both files parsed by harness/dxfparse.py and compared "
-    "tag for tag; every retained pointer must resolve to the same record type; second cycle must be a fixed point."
+    "tag for tag; every retained pointer must resolve to the same record type; second cycle must be a fixed point. "
+    "Session 3 (document-level model Model/StorageDoc.lean): D1 ENTITIES and OBJECTS of whole files (unknown records in ezdxf's and in "
+    "shuffled order, owner = modelspace / paperspace / other, paperspace flag 0/1/absent, mixed with LINE, INSERT+ATTRIB+SEQEND, "
+    "POLYLINE+VERTEX+SEQEND, an unknown record inside a POLYLINE = link error) through the real ezdxf.read -> write vs entitiesPass / "
+    "objectsPass; D2 the BLOCKS section (content of FB and of an inactive layout block, stray records between ENDBLK and BLOCK) vs "
+    "blocksPass; D3 whole files (complete HEADER with custom properties / unknown variable / with and without $LASTSAVEDBY, CLASSES, BLOCKS, "
+    "ENTITIES, OBJECTS, ACDSDATA, unknown sections; only $HANDSEED masked, TABLES as a marker) vs loadSaveFile; implemented records are compared as (type, handle). X5 CLASS "
+    "records (standard, shuffled, partial, duplicate codes, foreign codes, application groups, subclass / XDATA markers) and whole "
+    "CLASSES sections vs the real DXFClass / ClassesSection for R2000 and R2004+; X6 header group lists (variables of every version "
+    "window, unknown names, repeated names, custom property pairs anywhere, $LASTSAVEDBY present or not) vs the real HeaderSection "
+    "load + export for 7 target versions; X6b HEADER sections at tag level incl. malformed ones vs headerSectionPass; X7 ACAD_PROXY_ENTITY records vs the real ACADProxyEntity; X8 ACDSDATA sections vs the real "
+    "AcDsDataSection. E1 also replays the inputs of document_level_counterexamples."
 )
 TRUSTED_BASE = [
     "hand translation of DXFTagStorage.load/export_dxf, DXFEntity.export_base_class/setup_app_data, DXFNamespace handle scan, AppData/"
     "Reactors/ExtensionDict/XData containers, load_dxf_structure and the stored-section path into Model/Storage.lean (validated by the "
     "correspondence streams, not proved); the order of the export steps is regenerated from the AST of the current source",
-    "tag values are opaque strings in the model: typing of values by group code (tag_compiler/dxftag) and their text/binary encoding is C03",
+    "hand translation of factory dispatch, entity_linker, EntitySection/ObjectsSection/BlocksSection load + export, DXFClass/ClassesSection, "
+    "HeaderSection.load_tags/export_dxf + header_vars_by_priority, ACADProxyEntity.export_entity, AcDsDataSection/AcDsRecord into "
+    "Model/StorageDoc.lean (validated by the streams D1-D3, X5-X8); the functions are pinned statement by statement against the AST of the "
+    "current source (any other statement aborts the translation), the tables (ENTITY_CLASSES keys, LINKED_ENTITIES, HEADER_VAR_MAP, CLASS "
+    "attribute list, export orders) are regenerated",
+    "what an implemented entity class writes for its own record (DocCfg.known), its layout decision and the BLOCK name / BLOCK_RECORD "
+    "table order are parameters of the document-level theorems (subject of C01/C04)",
+    "tag values are opaque strings in the model: typing of values by group code (tag_compiler/dxftag) and their text/binary encoding is C03; "
+    "the model works on compiled tags (a point is one tag)",
+    "Reactors.from_tags keeps only valid handles (fix 4273c5184; the model follows the regenerated flag Gen.reactorsDropInvalid); "
     "Python dict keeps the position of the first insertion on overwrite; set() + sorted(key=int(x,16)) of reactor handles (ties between "
-    "different spellings of one number are resolved in hash order by CPython and are excluded from the model)",
+    "different spellings of one number are resolved in hash order by CPython and are excluded from the model: hypothesis tieFree)",
     "harness-owned DXF parser harness/dxfparse.py (shares no code with ezdxf)",
 ]
 ASSUMPTIONS = [
     "int(x, 16) is modelled for [0-9A-Fa-f]+ only (no sign, whitespace, underscore, 0x prefix)",
     "options.filter_invalid_xdata_group_codes and options.load_proxy_graphics have their default value True",
-    "the managed sections (HEADER..OBJECTS, ACDSDATA) are an opaque parameter of the document-level model; their content is the "
-    "subject of C01/C04, the oracle here checks the foreign content inside them on the real code only",
+    "TABLES is an opaque parameter of the document-level model; the *Model_Space / active *Paper_Space block definitions hold no "
+    "entities inside the BLOCKS section (their entities stand in ENTITIES, as AutoCAD and ezdxf write them)",
+    "the HEADER holds $ACADVER (every R2000+ file does; HeaderSection.export_dxf raises without it); header values are opaque, their "
+    "group code is re-derived from the variable name by ezdxf",
+    "integer tag values are canonical decimal texts (paperspace flag 67: only \"0\" is false)",
 ]
 OPEN = [
-    "TableHead and XRecord are tied by the AST-extracted statement order and a payload mini model (stream X4) only; the rest of "
-    "their attribute handling is oracle-only",
-    "storage_idempotent is proved for EntityWF inputs in any base-class order; for malformed inputs the fixed point property is "
-    "checked by the correspondence stream (model and code) only",
-    "proxy graphic decoding, ACDSDATA record internals, CLASS attribute loading and header variable values are oracle-only",
+    "TableHead: the tags of the input symbol-table subclass other than the count (e.g. the handle list AutoCAD writes into the DIMSTYLE "
+    "table head) are regenerated, not kept; XRecord: an embedded object behind the payload is not kept (both modelled, streams X4 / X10, "
+    "outside the theorems' hypotheses)",
+    "the document-level theorems take the output of an implemented class for its own record, TABLES, the CLASS entries and the objects "
+    "ezdxf creates itself as parameters; HEADER, CLASSES and ACDSDATA are composed into file_passthrough at tag level (header VALUES "
+    "are opaque: ezdxf re-formats numbers and maintains some variables itself, e.g. $HANDSEED, which stream D3 masks)",
+    "proxy graphic DECODING (virtual entities) is not modelled: proxy data is proved to be kept as opaque tags only; binary DXF framing "
+    "and value typing are C03; foreign content on implemented entities other than XRECORD / TABLE heads / ACAD_PROXY_ENTITY "
+    "(XDATA, application groups, embedded objects of LINE, MTEXT, ...) is oracle-only (O1 hosts)",
+    "storage_idempotent_any needs tieFree (reactor handles with pairwise different numeric values): CPython iterates a set of equal-key "
+    "strings in hash order, which the model cannot predict",
 ]
 
 SRC_ENTITY = "src/ezdxf/entities/dxfentity.py"
@@ -138,6 +167,274 @@ def _nats(s: str) -> str:
     return lean_list(str(ord(c)) for c in s)
 
 
+
+# ------------------------------------------------------------------ regenerate (session 3): document-level tables and kernels
+ENTSEC_BUILD = [
+    "assert self.doc is not None",
+    "section_head = cast('DXFTagStorage', next(entities))",
+    "if section_head.dxftype() != 'SECTION' or section_head.base_class[1] != (2, 'ENTITIES'):\n    raise const.DXFStructureError('Critical structure error in ENTITIES section.')",
+    "def add(entity: DXFGraphic):\n    handle = entity.dxf.owner\n    paperspace = 0\n    if handle == msp_layout_key:\n        paperspace = 0\n    elif handle == psp_layout_key:\n        paperspace = 1\n    elif entity.dxf.hasattr('paperspace'):\n        paperspace = entity.dxf.paperspace\n    if paperspace:\n        psp.add_entity(entity)\n    else:\n        msp.add_entity(entity)",
+    "msp = cast('BlockRecord', self.doc.block_records.get('*Model_Space'))",
+    "psp = cast('BlockRecord', self.doc.block_records.get('*Paper_Space'))",
+    "msp_layout_key: str = msp.dxf.handle",
+    "psp_layout_key: str = psp.dxf.handle",
+    "linked_entities = entity_linker()",
+    "for entity in entities:\n    if not linked_entities(entity):\n        add(entity)",
+]
+ENTSEC_EXPORT = {
+    "assert self.doc is not None": "",
+    "layouts = self.doc.layouts": "",
+    "tagwriter.write_str('  0\\nSECTION\\n  2\\nENTITIES\\n')": "",
+    "layouts.modelspace().entity_space.export_dxf(tagwriter)": "modelspace",
+    "layouts.active_layout().entity_space.export_dxf(tagwriter)": "activePaperspace",
+    "tagwriter.write_tag2(0, 'ENDSEC')": "",
+}
+OBJSEC_BUILD = [
+    "section_head = cast('DXFTagStorage', next(entities))",
+    "if section_head.dxftype() != 'SECTION' or section_head.base_class[1] != (2, 'OBJECTS'):\n    raise const.DXFStructureError('Critical structure error in the OBJECTS section.')",
+    "for entity in entities:\n    self._entity_space.add(entity)",
+]
+OBJSEC_EXPORT = ["tagwriter.write_str('  0\\nSECTION\\n  2\\nOBJECTS\\n')", "self._entity_space.export_dxf(tagwriter)", "tagwriter.write_tag2(0, 'ENDSEC')"]
+LINKER_TEXT = (
+    "def entity_linker_(entity: DXFEntity) -> bool:\n    nonlocal main_entity, expected_dxftype\n    dxftype: str = entity.dxftype()\n"
+    "    are_linked_entities = False\n    if main_entity is not None:\n        are_linked_entities = True\n        if dxftype == 'SEQEND':\n"
+    "            main_entity.link_seqend(entity)\n            main_entity = None\n        elif dxftype == expected_dxftype:\n"
+    "            main_entity.link_entity(entity)\n        else:\n            raise const.DXFStructureError(f'Expected DXF entity {dxftype} or SEQEND')\n"
+    "    elif dxftype in LINKED_ENTITIES:\n        if dxftype == 'INSERT' and (not entity.dxf.get('attribs_follow', 0)):\n            pass\n"
+    "        else:\n            main_entity = entity\n            expected_dxftype = LINKED_ENTITIES[dxftype]\n"
+    "    elif dxftype == 'MTEXT' and entity.dxf.handle is None:\n        logger.error('Found attached MTEXT entity. Please open an issue at github: "
+    "https://github.com/mozman/ezdxf/issues and provide a DXF example file.')\n    return are_linked_entities"
+)
+CLASS_ATTR_TOKENS = {"name": "name", "cpp_class_name": "cpp", "app_name": "app", "flags": "flags", "instance_count": "count",
+                     "was_a_proxy": "proxy", "is_an_entity": "entity"}
+CLASS_ATTR_SPEC = {  # name -> (group code, default, min dxf version) as the model assumes them
+    "name": (1, None, "AC1009"), "cpp_class_name": (2, None, "AC1009"), "app_name": (3, None, "AC1009"), "flags": (90, 0, "AC1009"),
+    "instance_count": (91, 0, "AC1018"), "was_a_proxy": (280, 0, "AC1009"), "is_an_entity": (281, 0, "AC1009")}
+
+
+PINNED_FUNCTIONS = [  # (file, class, function, sha256[:16] of the docstring-free ast.unparse): hand-modelled in Model/StorageDoc.lean
+    ('src/ezdxf/sections/blocks.py', 'BlocksSection', 'load', '643b805409f04d90'),
+    ('src/ezdxf/sections/blocks.py', 'BlocksSection', 'export_dxf', '0189b78cabd2cbd0'),
+    ('src/ezdxf/entities/blockrecord.py', 'BlockRecord', 'export_block_definition', 'b9574820f0b83ab3'),
+    ('src/ezdxf/entities/blockrecord.py', 'BlockRecord', 'add_entity', '89b5fe93071825d0'),
+    ('src/ezdxf/entities/table.py', 'TableHead', 'load_dxf_attribs', '107a78a51be80070'),
+    ('src/ezdxf/sections/header.py', 'HeaderSection', 'load_tags', '053d953baa2cb0d3'),
+    ('src/ezdxf/entities/dxfentity.py', 'DXFTagStorage', 'store_tags', '816854cffbb1fd04'),
+    ('src/ezdxf/entities/dxfentity.py', 'DXFTagStorage', 'load', '3abe2c16b1990550'),
+    ('src/ezdxf/lldxf/extendedtags.py', 'ExtendedTags', 'get_subclass', 'c63c7267dcbcbe4c'),
+    ('src/ezdxf/lldxf/tags.py', None, 'group_tags', '7df8ac0ac6d02b56'),
+    ('src/ezdxf/sections/acdsdata.py', 'AcDsDataSection', 'load_tags', '87f3a67aab39b7fe'),
+    ('src/ezdxf/sections/acdsdata.py', 'AcDsDataSection', 'append', 'dca1a7b3720ec703'),
+    ('src/ezdxf/sections/classes.py', 'ClassesSection', 'load', 'ae14ce53a1c62c18'),
+    ('src/ezdxf/lldxf/loader.py', None, 'load_and_bind_dxf_content', '7cb661e9569c47d6'),
+    ('src/ezdxf/lldxf/loader.py', None, 'load_dxf_entities', 'ce19c6b03d09c9e7'),
+    ('src/ezdxf/lldxf/validator.py', None, 'header_validator', '01e7980cce73a746'),
+    ('src/ezdxf/entities/dxfobj.py', 'XRecord', 'export_entity', '6f6e070f735aadf6'),
+]
+
+
+def _strip_doc(fn):
+    fn = ast.parse(ast.unparse(fn)).body[0]
+    for node in ast.walk(fn):
+        if isinstance(node, (ast.FunctionDef, ast.ClassDef)) and node.body and isinstance(node.body[0], ast.Expr) \
+                and isinstance(node.body[0].value, ast.Constant) and isinstance(node.body[0].value.value, str):
+            node.body = node.body[1:] or [ast.Pass()]
+    return fn
+
+
+def _regen_document_level(ctx) -> str:
+    """tables and statement orders for Model/StorageDoc.lean; anything outside the recognised subset aborts the translation"""
+    from ezdxf.entities import factory
+    from ezdxf.entities.subentity import LINKED_ENTITIES
+    from ezdxf.entities.dxfclass import DXFClass
+    from ezdxf.sections.headervars import HEADER_VAR_MAP
+
+    more = ["src/ezdxf/sections/objects.py", "src/ezdxf/entities/subentity.py", "src/ezdxf/entities/factory.py", "src/ezdxf/entities/dxfclass.py",
+            "src/ezdxf/sections/headervars.py", "src/ezdxf/entities/dictionary.py", "src/ezdxf/sections/blocks.py", "src/ezdxf/sections/acdsdata.py", "src/ezdxf/entities/acad_proxy_entity.py", "src/ezdxf/lldxf/tags.py"]
+    for m in more:
+        ctx.src(m)
+        if m not in SRCS:
+            SRCS.append(m)
+    sect = ast.parse(ctx.src(SRC_SECT))
+    got = [ast.unparse(s) for s in _body(_func(sect, "EntitySection", "_build"))]
+    if got != ENTSEC_BUILD:
+        raise ValueError("EntitySection._build outside the translated subset: " + repr([g for g in got if g not in ENTSEC_BUILD][:2]))
+    ent_order = _tokens(_body(_func(sect, "EntitySection", "export_dxf")), ENTSEC_EXPORT, "EntitySection.export_dxf")
+    objs = ast.parse(ctx.src("src/ezdxf/sections/objects.py"))
+    if [ast.unparse(s) for s in _body(_func(objs, "ObjectsSection", "_build"))] != OBJSEC_BUILD:
+        raise ValueError("ObjectsSection._build outside the translated subset")
+    if [ast.unparse(s) for s in _body(_func(objs, "ObjectsSection", "export_dxf"))] != OBJSEC_EXPORT:
+        raise ValueError("ObjectsSection.export_dxf outside the translated subset")
+    edb = ast.parse(ctx.src("src/ezdxf/entitydb.py"))
+    if [ast.unparse(s) for s in _body(_func(edb, "EntitySpace", "export_dxf"))] != ["for entity in iter(self):\n    entity.export_dxf(tagwriter)"]:
+        raise ValueError("EntitySpace.export_dxf outside the translated subset")
+    sub = ast.parse(ctx.src("src/ezdxf/entities/subentity.py"))
+    linker = ast.unparse(_strip_doc(_func(sub, None, "entity_linker_")))
+    if linker != LINKER_TEXT:
+        raise ValueError("entity_linker outside the translated subset")
+    fac = ast.parse(ctx.src("src/ezdxf/entities/factory.py"))
+    if [ast.unparse(s) for s in _body(_func(fac, None, "cls"))] != ["return ENTITY_CLASSES.get(dxftype, DEFAULT_CLASS)"] or \
+            [ast.unparse(s) for s in _body(_func(fac, None, "load"))] != ["entity = cls(tags.dxftype()).load(tags, doc)",
+                                                                          "return entity.cast() if hasattr(entity, 'cast') else entity"]:
+        raise ValueError("factory.load / factory.cls outside the translated subset")
+    if factory.DEFAULT_CLASS.__name__ != "DXFTagStorage":
+        raise ValueError("factory.DEFAULT_CLASS is not DXFTagStorage")
+    registered = sorted(factory.ENTITY_CLASSES)
+    # --- CLASS
+    dcl = ast.parse(ctx.src("src/ezdxf/entities/dxfclass.py"))
+    exp = [ast.unparse(s) for s in _body(_func(dcl, "DXFClass", "export_dxf"))]
+    if exp[:4] != ["dxfversion = tagwriter.dxfversion", "if dxfversion < DXF2000:\n    return", "attribs = self.dxf", "tagwriter.write_tag2(0, self.DXFTYPE)"] \
+            or len(exp) != 5 or not exp[4].startswith("attribs.export_dxf_attribs(tagwriter, ["):
+        raise ValueError("DXFClass.export_dxf outside the translated subset")
+    call = _body(_func(dcl, "DXFClass", "export_dxf"))[4].value
+    names = [e.value for e in call.args[1].elts]
+    if sorted(names) != sorted(CLASS_ATTR_TOKENS):
+        raise ValueError("DXFClass.export_dxf: attribute list changed: " + repr(names))
+    ld = [ast.unparse(s) for s in _body(_func(dcl, "DXFClass", "load_tags"))]
+    if ld != ["if tags:\n    self.dxf = DXFNamespace(entity=self)\n    processor = SubclassProcessor(tags)\n    processor.fast_load_dxfattribs(self.dxf, class_def_group_codes, 0, log=False)"]:
+        raise ValueError("DXFClass.load_tags outside the translated subset")
+    for n, (code, default, mindxf) in CLASS_ATTR_SPEC.items():
+        a = DXFClass.DXFATTRIBS.get(n)
+        if a is None or a.code != code or a.default != default or a.optional or (a.dxfversion != mindxf):
+            raise ValueError(f"class_def attribute {n} changed: code={getattr(a, 'code', None)} default={getattr(a, 'default', None)} "
+                             f"optional={getattr(a, 'optional', None)} dxfversion={getattr(a, 'dxfversion', None)}")
+    cls_src = ast.parse(ctx.src("src/ezdxf/sections/classes.py"))
+    reg = [ast.unparse(s) for s in _body(_func(cls_src, "ClassesSection", "register"))]
+    if reg[-1] != "for dxfclass in classes:\n    key = dxfclass.key\n    if key not in self.classes:\n        self.classes[key] = dxfclass":
+        raise ValueError("ClassesSection.register outside the translated subset")
+    cexp = [ast.unparse(s) for s in _body(_func(cls_src, "ClassesSection", "export_dxf"))]
+    if cexp != ["tagwriter.write_str('  0\\nSECTION\\n  2\\nCLASSES\\n')", "for dxfclass in self.classes.values():\n    dxfclass.export_dxf(tagwriter)",
+                "tagwriter.write_str('  0\\nENDSEC\\n')"]:
+        raise ValueError("ClassesSection.export_dxf outside the translated subset")
+    # --- HEADER_VAR_MAP
+    hv = []
+    for name, d in HEADER_VAR_MAP.items():
+        if d.name != name or not (d.mindxf.startswith("AC") and d.maxdxf.startswith("AC")):
+            raise ValueError("HEADER_VAR_MAP entry outside the translated subset: " + name)
+        hv.append(f"({_nats(name)}, {int(d.priority)}, {int(d.mindxf[2:])}, {int(d.maxdxf[2:])})")
+    hvc = [f"({_nats(name)}, {int(d.code)})" for name, d in HEADER_VAR_MAP.items()]
+    hvs = ast.parse(ctx.src("src/ezdxf/sections/headervars.py"))
+    vs = [ast.unparse(x) for x in _body(_func(hvs, None, "version_specific_group_code"))]
+    if vs != ["group_code = HEADER_VAR_MAP[name].code",
+              "if name == '$ACADMAINTVER':\n    group_code = 70 if dxfversion < DXF2018 else 90\nelif name == '$XCLIPFRAME':\n    group_code = 290 if dxfversion < DXF2010 else 280",
+              "return group_code"]:
+        raise ValueError("version_specific_group_code outside the translated subset: " + repr(vs))
+    from ezdxf.lldxf import const as _c
+    if (_c.DXF2018, _c.DXF2010) != ("AC1032", "AC1024"):
+        raise ValueError("DXF version constants changed")
+    hsrc = ast.parse(ctx.src(SRC_HEADER))
+    cw = [ast.unparse(x) for x in _body(_func(hsrc, "CustomVars", "write"))]
+    if cw != ["for tag, value in self.properties:\n    s = f'  9\\n$CUSTOMPROPERTYTAG\\n  1\\n{tag}\\n  9\\n$CUSTOMPROPERTY\\n  1\\n{value}\\n'\n    tagwriter.write_str(s)"]:
+        raise ValueError("CustomVars.write outside the translated subset: " + repr(cw))
+    byp = ast.unparse(_strip_doc(_func(hsrc, None, "header_vars_by_priority")))
+    want = ("def header_vars_by_priority(header_vars: dict[str, HeaderVar], dxfversion: str) -> Iterable[tuple]:\n    order = []\n"
+            "    for name, value in header_vars.items():\n        vardef = HEADER_VAR_MAP.get(name, None)\n        if vardef is None:\n"
+            "            logger.info(f'Header variable {name} ignored, dxfversion={dxfversion}.')\n            continue\n"
+            "        if vardef.mindxf <= dxfversion <= vardef.maxdxf:\n            order.append((vardef.priority, (name, value)))\n"
+            "    order.sort()\n    for priority, tag in order:\n        yield tag")
+    if byp != want:
+        raise ValueError("header_vars_by_priority outside the translated subset")
+    # --- ACDSDATA / proxy entity: the statements the model depends on
+    acds = ast.parse(ctx.src("src/ezdxf/sections/acdsdata.py"))
+    aexp = [ast.unparse(s) for s in _body(_func(acds, "AcDsDataSection", "export_dxf"))]
+    if aexp != ["if not self.is_valid or not self.has_records:\n    return", "tagwriter.write_tags(self.section_info)",
+                "for entity in self.entities:\n    entity.export_dxf(tagwriter)", "tagwriter.write_tag2(0, 'ENDSEC')"]:
+        raise ValueError("AcDsDataSection.export_dxf outside the translated subset")
+    rinit = [ast.unparse(s) for s in _body(_func(acds, "AcDsRecord", "__init__"))]
+    if rinit != ["self._dxftype = tags[0]", "self.flags = tags[1]", "self.sections = [Section(group) for group in group_tags(islice(tags, 2, None), splitcode=2)]"]:
+        raise ValueError("AcDsRecord.__init__ outside the translated subset")
+    rexp = [ast.unparse(s) for s in _body(_func(acds, "AcDsRecord", "export_dxf"))]
+    if rexp != ["self._write_header(tagwriter)", "for section in self.sections:\n    tagwriter.write_tags(section)"]:
+        raise ValueError("AcDsRecord.export_dxf outside the translated subset")
+    prx = ast.parse(ctx.src("src/ezdxf/entities/acad_proxy_entity.py"))
+    pexp = [ast.unparse(s) for s in _body(_func(prx, "ACADProxyEntity", "export_entity"))]
+    if pexp != ["super().export_entity(tagwriter)", "if self.acdb_proxy_entity is not None:\n    tagwriter.write_tags(self.acdb_proxy_entity)"]:
+        raise ValueError("ACADProxyEntity.export_entity outside the translated subset")
+    if "self.acdb_proxy_entity = processor.subclass_by_index(2)" not in ast.unparse(_func(prx, "ACADProxyEntity", "load_dxf_attribs")):
+        raise ValueError("ACADProxyEntity.load_dxf_attribs outside the translated subset")
+
+    # --- functions that are modelled by hand and pinned as a whole: any change aborts the translation until the model is reviewed
+    import hashlib
+    for f, c, n, want in PINNED_FUNCTIONS:
+        ctx.src(f)
+        if f not in SRCS:
+            SRCS.append(f)
+        got = hashlib.sha256(ast.unparse(_strip_doc(_func(ast.parse(ctx.src(f)), c, n))).encode()).hexdigest()[:16]
+        if got != want:
+            raise ValueError(f"{f}: {c + '.' if c else ''}{n} changed (hash {got}, modelled {want}): review Model/StorageDoc.lean")
+    # --- Dictionary.load_dict / export_dict
+    dsrc = ast.parse(ctx.src("src/ezdxf/entities/dictionary.py"))
+    if [ast.unparse(x) for x in _body(_func(dsrc, "Dictionary", "load_dict"))] != ['entry_handle = None', 'dict_key = None', 'value_code = VALUE_CODE', 'for code, value in tags:\n    if code in SEARCH_CODES:\n        value_code = code\n        entry_handle = value\n    elif code == KEY_CODE:\n        dict_key = value\n    if dict_key and entry_handle:\n        self._data[dict_key] = entry_handle\n        entry_handle = None\n        dict_key = None', 'self._value_code = value_code']:
+        raise ValueError("Dictionary.load_dict outside the translated subset")
+    if [ast.unparse(x) for x in _body(_func(dsrc, "Dictionary", "export_dict"))] != ['for key, value in self._data.items():\n    tagwriter.write_tag2(KEY_CODE, key)\n    if isinstance(value, DXFEntity):\n        if value.is_alive:\n            value = value.dxf.handle\n        else:\n            logger.debug(f\'Key "{key}" points to a destroyed entity in {str(self)}, target replaced by "0" handle.\')\n            value = \'0\'\n    tagwriter.write_tag2(self._value_code, value)']:
+        raise ValueError("Dictionary.export_dict outside the translated subset")
+    from ezdxf.entities import dictionary as _dictmod
+    if (_dictmod.KEY_CODE, _dictmod.VALUE_CODE, tuple(_dictmod.SEARCH_CODES)) != (3, 350, (350, 360)) or \
+            sorted(_dictmod.acdb_dictionary_group_codes) != [280, 281]:
+        raise ValueError("dictionary.py: group code constants changed")
+    # --- which registered classes keep the generic base class / XDATA handling of DXFEntity
+    import inspect
+    from ezdxf.entities.dxfentity import DXFEntity
+
+    from ezdxf.entities.dxfentity import DXFTagStorage
+
+    generic, special, storage = [], [], []
+    for name in registered:
+        c = factory.ENTITY_CLASSES[name]
+        if issubclass(c, DXFTagStorage):
+            # a registered class that IS a tag storage (same load / export as the default class): handled like an unknown type
+            same = all(getattr(getattr(c, m), "__func__", getattr(c, m)) is getattr(getattr(DXFTagStorage, m), "__func__", getattr(DXFTagStorage, m))
+                       for m in ("export_dxf", "export_base_class", "export_entity", "export_xdata", "load", "load_tags", "setup_app_data",
+                                 "store_tags", "store_embedded_objects"))
+            (storage if same else special).append(name)
+            continue
+        over = []
+        for m in ("export_dxf", "export_base_class", "export_xdata", "load_tags", "setup_app_data", "load"):
+            fa, fb = getattr(c, m), getattr(DXFEntity, m)
+            if getattr(fa, "__func__", fa) is not getattr(fb, "__func__", fb):
+                over.append(m)
+        if not over:
+            generic.append(name)
+        elif over == ["export_dxf"]:
+            # a wrapper is fine: the first statement calls the generic export, what follows writes further records
+            fn = ast.parse(textwrap.dedent(inspect.getsource(c.export_dxf))).body[0]
+            body = [ast.unparse(x) for x in _body(fn)]
+            if body and (body[0] == "super().export_dxf(tagwriter)" or
+                         (name == "ACAD_PROXY_ENTITY" and "super().export_dxf(tagwriter)" in body and not any("write_tag" in b for b in body))):
+                generic.append(name)
+            else:
+                special.append(name)
+        else:
+            special.append(name)
+
+    def enum(name, ctors):
+        return f"inductive {name} where\n" + "".join(f"  | {c}\n" for c in ctors) + "  deriving Repr, DecidableEq\n"
+
+    return f"""
+/-! session 3: document level -/
+/-- registered types whose class keeps `DXFEntity.load_tags / export_dxf / export_base_class / export_xdata` (a wrapper that
+    first calls the generic export counts as generic), and the others -/
+def genericTypes : List (List Nat) := {lean_list((_nats(s) for s in generic), per_line=1)}
+def specialTypes : List (List Nat) := {lean_list((_nats(s) for s in special), per_line=1)}
+/-- registered types whose class is a `DXFTagStorage` with the unchanged load / export: treated like a type without class -/
+def storageTypes : List (List Nat) := {lean_list((_nats(s) for s in storage), per_line=1)}
+/-- keys of `factory.ENTITY_CLASSES` (every other DXF type is loaded as DXFTagStorage) -/
+def registeredTypes : List (List Nat) := {lean_list((_nats(s) for s in registered), per_line=1)}
+/-- `subentity.LINKED_ENTITIES` -/
+def linkedEntities : List (List Nat × List Nat) := {lean_list(f"({_nats(k)}, {_nats(v)})" for k, v in LINKED_ENTITIES.items())}
+/-- entity spaces written by `EntitySection.export_dxf`, in order -/
+{enum("EntitiesPart", ["modelspace", "activePaperspace"])}
+def entitiesOrder : List EntitiesPart := {lean_list("." + t for t in ent_order)}
+/-- attribute list of `DXFClass.export_dxf` -/
+{enum("ClassAttr", ["name", "cpp", "app", "flags", "count", "proxy", "entity"])}
+def classAttribOrder : List ClassAttr := {lean_list("." + CLASS_ATTR_TOKENS[n] for n in names)}
+/-- `HEADER_VAR_MAP`: (name, priority, mindxf, maxdxf) -/
+def headerVarMap : List (List Nat × Nat × Nat × Nat) := {lean_list(hv, per_line=1)}
+/-- group code of the value tag of every header variable (latest DXF version; `version_specific_group_code` has two exceptions) -/
+def headerVarCodes : List (List Nat × Nat) := {lean_list(hvc, per_line=1)}
+"""
+
+
 def regenerate(ctx):
     for s in SRCS:
         ctx.src(s)
@@ -211,6 +508,31 @@ def regenerate(ctx):
     if not keep_later and "subclasses[2" in xsrc:
         raise ValueError("XRecord.load_dxf_attribs: handling of later subclasses outside the translated subset")
 
+    # --- Reactors.from_tags: are values that are no valid handles dropped at load time? (a later fix does that; the model follows)
+    app = ast.parse(ctx.src("src/ezdxf/entities/appdata.py"))
+    rbody = _body(_func(app, "Reactors", "from_tags"))
+    rlast = ast.unparse(rbody[-1]) if rbody else ""
+    if [ast.unparse(x) for x in rbody[:-1]] != ["if tags is None:\n    return cls(None)",
+                                                  "if len(tags) < 2:\n    raise DXFStructureError('ACAD_REACTORS error')"]:
+        raise ValueError("Reactors.from_tags outside the translated subset: " + repr([ast.unparse(x) for x in rbody[:-1]]))
+    if rlast == "return cls((handle.value for handle in tags[1:-1]))":
+        reactors_drop_invalid = False
+    else:
+        ret = rbody[-1]
+        gen = ret.value.args[0] if isinstance(ret, ast.Return) and isinstance(ret.value, ast.Call) and len(ret.value.args) == 1 else None
+        ok = (isinstance(gen, (ast.GeneratorExp, ast.ListComp, ast.SetComp)) and len(gen.generators) == 1
+              and ast.unparse(gen.generators[0].iter) == "tags[1:-1]" and len(gen.generators[0].ifs) == 1
+              and ast.unparse(gen.elt) == ast.unparse(gen.generators[0].target) + ".value"
+              and "handle" in ast.unparse(gen.generators[0].ifs[0]) and ".value" in ast.unparse(gen.generators[0].ifs[0]))
+        if not ok:
+            raise ValueError("Reactors.from_tags outside the translated subset: " + rlast)
+        reactors_drop_invalid = True
+    rget = [ast.unparse(x) for x in _body(_func(app, "Reactors", "get"))]
+    if rget != ["return sorted(self.reactors, key=lambda x: int(x, base=16))"]:
+        raise ValueError("Reactors.get outside the translated subset: " + repr(rget))
+    # --- session 3: record sections, factory dispatch, entity linker, CLASSES, HEADER (document-level model Model/StorageDoc.lean)
+    doc_gen = _regen_document_level(ctx)
+
     def enum(name, ctors):
         return f"inductive {name} where\n" + "".join(f"  | {c}\n" for c in ctors) + "  deriving Repr, DecidableEq\n"
 
@@ -233,6 +555,8 @@ def customFallback : CustomFallback := .{fallback}
 /-- parts written by `TableHead.export_dxf` behind (0, TABLE), (2, name) in the R2000+ branch -/
 {enum("TableHeadPart", ["handle", "appdata", "xdict", "reactors", "owner", "subclass", "count", "dimstyle", "xdata"])}
 def tableHeadOrder : List TableHeadPart := {lean_list("." + t for t in tablehead_order)}
+/-- `Reactors.from_tags` keeps only values that are valid handles (`int(x, 16)` succeeds) -/
+def reactorsDropInvalid : Bool := {"true" if reactors_drop_invalid else "false"}
 /-- `XRecord.load_dxf_attribs` appends the tags of `processor.subclasses[2:]` to the payload -/
 def xrecordKeepsLaterSubclasses : Bool := {"true" if keep_later else "false"}
 
@@ -261,6 +585,7 @@ def xdataMarker : Nat := {const.XDATA_MARKER}
 def subclassMarker : Nat := {const.SUBCLASS_MARKER}
 def structureMarker : Nat := {const.STRUCTURE_MARKER}
 
+{doc_gen}
 end EzdxfVerif.Gen.StorageTables
 """
     ctx.write_gen("StorageTables", text, SRCS)
@@ -279,7 +604,8 @@ FLOATS = [39, 40, 41, 48, 50, 59, 140, 145, 149, 460, 469]
 POINTS = [10, 11, 12, 13, 14, 15, 16, 17, 18, 110, 111, 112, 210, 211, 212, 213]
 BINARY = [310, 311, 315, 319]
 XD_STR, XD_HANDLE, XD_BIN, XD_POINT, XD_FLOAT, XD_I16, XD_I32 = [1000, 1003], [1005], [1004], [1010, 1011, 1012, 1013], [1040, 1041, 1042], [1070], [1071]
-FOREIGN_TYPES = ["FOO", "ACME_WIDGET", "XYZOBJ", "AECC_THING", "ACAD_PROXY_OBJECT", "MYOBJ", "DIMSTYLE_X"]
+FOREIGN_TYPES = ["FOO", "ACME_WIDGET", "XYZOBJ", "AECC_THING", "ACAD_PROXY_OBJECT", "MYOBJ", "DIMSTYLE_X", "ACAD_TABLE"]
+STORAGE_TYPES = ["ACAD_TABLE"]   # registered, but the class is a DXFTagStorage (Gen.storageTypes)
 WORDS = ["", "a", "AcDbFoo", "x y", "{", "}", "{A", "A}", "Embedded Object", "100", "ä€", "\\U+20AC", "^J", "%%c", "0", "None", " lead", "trail ", ";:|,/"]
 SUBCLASS_NAMES = ["AcDbEntity", "AcDbFoo", "AcDbProxyEntity", "AcDbProxyObject", "AcmeWidget", "AcDbBar", "X"]
 APPIDS = ["ACAD", "APPA", "APPB", "APPC", "EZDXF", "ACME", "A"]
@@ -550,7 +876,7 @@ def impl_roundtrip(ctags, alive):
     try:
         xt = ExtendedTags.from_text(to_text(ctags))
         e = factory.load(xt, None)
-        if type(e).__name__ != "DXFTagStorage":
+        if type(e).__name__ != "DXFTagStorage" and not (ctags[0][1] in STORAGE_TYPES and isinstance(e, factory.DEFAULT_CLASS)):
             return None, "err other:known-type"
         e.post_load_hook(_StubDoc(alive))
         col = CompiledCollector()
@@ -1741,6 +2067,977 @@ def correspond_xrecord(ctx):
     ctx.correspond("X4 XRECORD", "C02", cases)
 
 
+
+# ------------------------------------------------------------------ session 3: document-level correspondence (Model/StorageDoc.lean)
+def _canon_line(line):
+    """`ok code:cps;…` -> canonical comparable tags (numbers through float()/int()), anything else unchanged"""
+    if not line.startswith("ok"):
+        return line
+    body = line[3:]
+    ts = []
+    for part in body.split(";") if body else []:
+        c, v = part.split(":")
+        c = int(c)
+        txt = "".join(chr(int(x)) for x in v.split(" ")) if v else ""
+        if (c in POINTS or c in XD_POINT) and "," in txt:
+            ts.append((c, tuple(float(x) for x in txt.split(","))))
+        else:
+            ts.append((c, cval(c, txt)))
+    return ts
+
+
+def unflat(tags):
+    """file-level tags -> compiled tags (the granularity of ExtendedTags and of the model): point coordinates merged"""
+    out, i = [], 0
+    while i < len(tags):
+        c, v = tags[i]
+        if c in POINTS or c in XD_POINT:
+            vals = [str(v)]
+            j = i + 1
+            while j < len(tags) and len(vals) < 3 and tags[j][0] == c + 10 * len(vals):
+                vals.append(str(tags[j][1]))
+                j += 1
+            if len(vals) > 1:
+                out.append((c, ",".join(vals)))
+                i = j
+                continue
+        out.append((c, v))
+        i += 1
+    return out
+
+
+def _fresh(rng, used, lo=0x1000, hi=0xEFFFF):
+    while True:
+        h = "%X" % rng.randint(lo, hi)
+        if h not in used:
+            used.add(h)
+            return h
+
+
+def gen_doc_records(rng, base, section: str, used):
+    """records for the ENTITIES / OBJECTS section: unknown types (tag storage) mixed with a few implemented ones.
+    -> (records as file-level tags, alive handles (extension dictionaries), extra OBJECTS records, expects a link error)"""
+    msp, psp = base["msp"], base["psp"]
+    recs, alive, extra = [], [], []
+    link_error = False
+    handle_of = {}
+
+    def unknown(owner=None, flag=None):
+        tags, al, _ = gen_entity(rng, rng.choice(["ordered", "ordered", "shuffled"]))
+        if tags[0][1] in ("ACAD_PROXY_OBJECT",):
+            tags[0] = (0, "FOO")
+        if rng.random() < 0.12:
+            tags[0] = (0, rng.choice(STORAGE_TYPES))
+        h = _fresh(rng, used)
+        own = owner if owner is not None else _fresh(rng, used)
+        out = []
+        seen_sub = False
+        for c, v in tags:
+            if not seen_sub and c == 100:
+                seen_sub = True
+                if flag is not None:
+                    out += [(100, "AcDbEntity")] + ([(67, str(flag))] if flag != "none" else []) + [(8, "0")]
+            if not seen_sub and c == 5:
+                v = h
+            elif not seen_sub and c == 330 and (len(out) < 2 or out[-1][0] != 330) and not _in_group(out):
+                v = own
+            out.append((c, v))
+        if not seen_sub and flag is not None:
+            # no subclass at all: put the AcDbEntity subclass in front of embedded objects / XDATA
+            k = next((i for i, (c, v) in enumerate(out) if c == 1001 or (c == 101 and v == "Embedded Object")), len(out))
+            out[k:k] = [(100, "AcDbEntity")] + ([(67, str(flag))] if flag != "none" else []) + [(8, "0")]
+        for xh in al:
+            # the extension dictionary must exist: a DICTIONARY object owned by the entity
+            nh = _fresh(rng, used)
+            out = [(c, nh if (c == 360 and v == xh) else v) for c, v in out]
+            alive.append(nh)
+            extra.append([(0, "DICTIONARY"), (5, nh), (330, h), (100, "AcDbDictionary"), (281, "1")])
+        handle_of[id(out)] = h
+        return out
+
+    def line(owner, flag):
+        h = _fresh(rng, used)
+        return [(0, "LINE"), (5, h), (330, owner), (100, "AcDbEntity")] + ([(67, "1")] if flag else []) + \
+               [(8, "0"), (100, "AcDbLine"), (10, "0.0"), (20, "0.0"), (30, "0.0"), (11, "1.0"), (21, "1.0"), (31, "0.0")]
+
+    def insert(owner, follow, n):
+        h = _fresh(rng, used)
+        out = [[(0, "INSERT"), (5, h), (330, owner), (100, "AcDbEntity"), (8, "0"), (100, "AcDbBlockReference")] +
+               ([(66, "1")] if follow else []) + [(2, "FB"), (10, "0.0"), (20, "0.0"), (30, "0.0")]]
+        for i in range(n):
+            ah = _fresh(rng, used)
+            out.append([(0, "ATTRIB"), (5, ah), (330, h), (100, "AcDbEntity"), (8, "0"), (100, "AcDbText"), (10, "0.0"), (20, "0.0"), (30, "0.0"),
+                        (40, "1.0"), (1, "v"), (100, "AcDbAttribute"), (2, f"T{i}"), (70, "0")])
+        if follow:
+            out.append([(0, "SEQEND"), (5, _fresh(rng, used)), (330, h), (100, "AcDbEntity"), (8, "0")])
+        return out
+
+    def polyline(owner, n):
+        h = _fresh(rng, used)
+        out = [[(0, "POLYLINE"), (5, h), (330, owner), (100, "AcDbEntity"), (8, "0"), (100, "AcDb2dPolyline"), (66, "1"), (10, "0.0"), (20, "0.0"), (30, "0.0")]]
+        for i in range(n):
+            out.append([(0, "VERTEX"), (5, _fresh(rng, used)), (330, h), (100, "AcDbEntity"), (8, "0"), (100, "AcDbVertex"), (100, "AcDb2dVertex"),
+                        (10, f"{i}.0"), (20, "0.0"), (30, "0.0")])
+        out.append([(0, "SEQEND"), (5, _fresh(rng, used)), (330, h), (100, "AcDbEntity"), (8, "0")])
+        return out
+
+    n = rng.randint(1, 9)
+    for _ in range(n):
+        k = rng.randrange(10)
+        if section == "OBJECTS":
+            if k < 8:
+                recs.append(unknown(owner=rng.choice([base["fd"], base["root"], None])))
+            else:
+                h = _fresh(rng, used)
+                recs.append([(0, "DICTIONARY"), (5, h), (330, base["fd"]), (100, "AcDbDictionary"), (281, "1")])
+            continue
+        if k < 5:
+            owner = rng.choice([msp, msp, psp, None])
+            flag = rng.choice([None, "none", "0", "1", "1"])
+            recs.append(unknown(owner=owner, flag=flag))
+        elif k == 5:
+            o = rng.choice([msp, psp])
+            recs.append(line(o, o == psp))
+        elif k == 6:
+            recs += insert(rng.choice([msp, psp]), True, rng.randint(0, 2))
+        elif k == 7:
+            recs += insert(msp, False, 0)
+        elif k == 8:
+            recs += polyline(rng.choice([msp, psp]), rng.randint(1, 3))
+        else:
+            if rng.random() < 0.3:
+                # an unknown record between a POLYLINE and its SEQEND: the linker raises
+                pl = polyline(msp, 2)
+                pl.insert(2, unknown(owner=msp, flag="0"))
+                recs += pl
+                link_error = True
+            else:
+                recs.append(line(msp, False))
+    handles = [handle_of.get(id(r), r[1][1] if len(r) > 1 and r[1][0] == 5 else None) for r in recs]
+    return recs, alive, extra, (link_error, handles)
+
+
+def _base_handle(r):
+    """the handle tag of the base class outside the application-data groups"""
+    depth = 0
+    for c, v in r[1:]:
+        if c == 102 and str(v).startswith("{") and not depth:
+            depth = 1
+        elif c == 102 and depth:
+            depth = 0
+        elif c in (100, 1001) or (c == 101 and v == "Embedded Object"):
+            break
+        elif c == 5 and not depth:
+            return v
+    return None
+
+
+def _in_group(out):
+    depth = 0
+    for c, v in out:
+        if c == 102 and str(v).startswith("{"):
+            depth = 1
+        elif c == 102 and depth:
+            depth = 0
+    return depth == 1
+
+
+def _doc_cycle(ctx, base, ent_recs, obj_recs, extra_objs, hi_seed="F0000", blk_recs=None):
+    """the real code on a whole file: base document with the ENTITIES body replaced and OBJECTS extended; ASCII stream API"""
+    import ezdxf
+
+    dxfparse = _import_dxfparse()
+    tags = []
+    for n, recs in base["sections"]:
+        if n == "HEADER":
+            hdr = [list(t) for t in recs[0][1:]]
+            i = next(i for i, t in enumerate(hdr) if tuple(t) == (9, "$HANDSEED"))
+            hdr[i + 1] = (5, hi_seed)
+            tags += [(0, "SECTION"), (2, "HEADER")] + [tuple(t) for t in hdr] + [(0, "ENDSEC")]
+            continue
+        tags += [(0, "SECTION"), (2, n)]
+        if n == "ENTITIES":
+            body = ent_recs if ent_recs is not None else recs
+        elif n == "OBJECTS":
+            body = list(recs) + obj_recs + extra_objs
+        elif n == "BLOCKS" and blk_recs is not None:
+            body = blk_recs
+        else:
+            body = recs
+        for r in body:
+            tags += flat(r)
+        tags.append((0, "ENDSEC"))
+    tags.append((0, "EOF"))
+    doc = ezdxf.read(io.StringIO(encode_ascii(tags)))
+    out = io.StringIO()
+    doc.write(out)
+    secs, _ = dxfparse.split_file(dxfparse.parse_ascii(out.getvalue()))
+    return dict(secs), tags
+
+
+def _describe(recs, registered):
+    """real output records -> the stand-in used by the driver: implemented records as (0,type),(5,handle), sub-entities nothing"""
+    dxfparse = _import_dxfparse()
+    out = []
+    for r in recs:
+        t = dxfparse.rec_type(r)
+        if t in ("ATTRIB", "VERTEX", "SEQEND"):
+            continue
+        if t in registered and t not in STORAGE_TYPES:
+            out += [(0, t), (5, next((v for c, v in r[1:] if c == 5), ""))]
+        else:
+            out += [(c, str(v)) for c, v in unflat(r)]
+    return out
+
+
+def correspond_document(ctx):
+    """D1: ENTITIES and OBJECTS of whole files through the real ezdxf.read -> write vs entitiesPass / objectsPass"""
+    from ezdxf.entities import factory
+    from ezdxf.lldxf.const import DXFStructureError
+
+    registered = set(factory.ENTITY_CLASSES)
+    rng = ctx.rng("document")
+    reqs, metas = [], []
+    for i in range(ctx.n(220, 1500)):
+        ver = VERSIONS[i % len(VERSIONS)]
+        base = base_doc(ver)
+        used = set()
+        ent, alive1, extra1, (link_error, _) = gen_doc_records(rng, base, "ENTITIES", used)
+        obj, alive2, extra2, (_, obj_handles) = gen_doc_records(rng, base, "OBJECTS", used)
+        try:
+            secs, tags_in = _doc_cycle(ctx, base, ent, obj, extra1 + extra2)
+            impl_e = "ok " + enc_tags(_describe(secs.get("ENTITIES", []), registered))
+            nbase = len(dict(base["sections"])["OBJECTS"])
+            mine = set(obj_handles)
+            dxfparse = _import_dxfparse()
+            objs_out = [r for r in secs.get("OBJECTS", []) if _base_handle(r) in mine]
+            impl_o = "ok " + enc_tags(_describe(objs_out, registered))
+        except DXFStructureError as e:
+            impl_e = impl_o = "err link" if "or SEQEND" in str(e) else "err " + str(e)[:40]
+        ctx.hist("D1 record sections (whole files)", "link-error" if link_error else "ok")
+        alive = alive1 + alive2
+        reqs.append(f"ents|{cps(base['msp'])}|{cps(base['psp'])}|{','.join(cps(h) for h in alive)}|{enc_recs(ent)}")
+        metas.append((impl_e, any(r[0][1] not in registered for r in ent)))
+        if not link_error:
+            reqs.append(f"objs|{','.join(cps(h) for h in alive)}|{enc_recs(obj)}")
+            metas.append((impl_o, any(r[0][1] not in registered for r in obj)))
+    outs = ctx.driver("C02", reqs, build=DRIVER_DEPS)
+    for req, (impl, nontriv), model in zip(reqs, metas, outs):
+        ctx.count("D1 record sections (whole files)", req, nontriv, sample={"request": req[:200], "impl": impl[:200], "model": model[:200]})
+        if _canon_line(impl) != _canon_line(model):
+            ctx.disagree("D1 record sections (whole files)", req[:3000], impl[:20000], model[:20000])
+    ctx.cov["disagreements_checked"] += len(reqs)
+
+
+
+def _compare(ctx, stream, reqs, metas):
+    """requests through the driver, compared on canonical values; metas = [(impl line, nontrivial)]"""
+    outs = ctx.driver("C02", reqs, build=DRIVER_DEPS)
+    for req, (impl, nontriv), model in zip(reqs, metas, outs):
+        ctx.count(stream, req, nontriv, sample={"request": req[:200], "impl": impl[:200], "model": model[:200]})
+        if _canon_line(impl) != _canon_line(model):
+            lim = 10 ** 7 if os.environ.get("C02_DEBUG") else 3000
+            ctx.disagree(stream, req[:lim], impl[:lim], model[:lim])
+    ctx.cov["disagreements_checked"] += len(reqs)
+
+
+def gen_class_record(rng, wild: bool):
+    typ = rng.choice(FOREIGN_TYPES[:5])
+    std = [(1, typ), (2, rng.choice(["AcDb", "Acme"]) + typ.title()), (3, rng.choice(["AcmeApp|Version 1.0", "ObjectDBX Classes", "x", ""])),
+           (90, str(rng.choice([0, 1, 1153, 4095, 32768]))), (91, str(rng.randint(0, 50))), (280, str(rng.randint(0, 1))), (281, str(rng.randint(0, 1)))]
+    if not wild:
+        if rng.random() < 0.3:
+            del std[4]  # a R2000 entry has no instance count
+        return [(0, "CLASS")] + std
+    k = rng.randrange(8)
+    tags = list(std)
+    if k == 0:
+        rng.shuffle(tags)
+    elif k == 1:
+        tags = [t for t in tags if rng.random() < 0.6]
+    elif k == 2:
+        tags.insert(rng.randint(0, len(tags)), (rng.choice([1, 2, 90, 91, 280]), rng.choice(["7", "1"])))
+    elif k == 3:
+        tags.insert(rng.randint(0, len(tags)), (rng.choice([4, 70, 40, 330, 5]), "3"))
+    elif k == 4:
+        tags[rng.randint(0, len(tags)):0] = [(102, "{ACME"), (1, "inside"), (90, "5"), (102, "}")]
+    elif k == 5:
+        tags.insert(rng.randint(0, len(tags)), (100, "AcDbMarker"))
+    elif k == 6:
+        tags.insert(rng.randint(0, len(tags)), (102, "{OPEN"))
+    else:
+        tags += [(1001, "ACAD"), (1000, "x")]
+    return [(0, "CLASS")] + tags
+
+
+def correspond_classes_full(ctx):
+    """X5: DXFClass load -> export and ClassesSection load -> export (whole entries, both version classes)"""
+    from ezdxf.entities import factory
+    from ezdxf.lldxf.extendedtags import ExtendedTags
+    from ezdxf.sections.classes import ClassesSection
+
+    rng = ctx.rng("classes-full")
+    reqs, metas = [], []
+
+    def load(rec):
+        return factory.load(ExtendedTags.from_text(to_text(rec)), None)
+
+    # the inputs of class_entry_counterexamples (Props/C02.lean)
+    for name, rec, ver, want in (
+            ("class-foreign-content", _T(0, "CLASS", 1, "A", 2, "B", 3, "C", 4, "foreign", 90, "1", 90, "7", 102, "{ACME", 1, "x", 102, "}", 280, "0", 281, "1",
+                                         1001, "ACAD", 1000, "x"), "AC1027", _T(0, "CLASS", 1, "A", 2, "B", 3, "C", 90, "7", 91, "0", 280, "0", 281, "1")),
+            ("class-count-r2000", _T(0, "CLASS", 1, "A", 2, "B", 3, "C", 90, "1", 91, "5", 280, "0", 281, "1"), "AC1015",
+             _T(0, "CLASS", 1, "A", 2, "B", 3, "C", 90, "1", 280, "0", 281, "1"))):
+        col = CompiledCollector(ver)
+        load(rec).export_dxf(col)
+        ctx.count("E1 counterexample theorems on real code", name, True, sample={"theorem": "class_entry_counterexamples", "case": name, "impl": str(col.tags)})
+        if col.tags != want:
+            ctx.disagree("E1 counterexample theorems on real code", name, str(col.tags), str(want))
+    ctx.cov["disagreements_checked"] += 2
+    for i in range(ctx.n(1200, 8000)):
+        rec = gen_class_record(rng, wild=i % 2 == 1)
+        for ver in ("AC1015", "AC1027"):
+            try:
+                col = CompiledCollector(ver)
+                load(rec).export_dxf(col)
+                impl = "ok " + enc_tags(col.tags)
+            except Exception:  # noqa
+                impl = "none"
+            reqs.append(f"class|{int(ver >= 'AC1018')}|{enc_tags(rec)}")
+            metas.append((impl, len(rec) > 1))
+        ctx.hist("X5 CLASS entries", "wild" if i % 2 else "standard")
+    for i in range(ctx.n(500, 4000)):
+        recs = [gen_class_record(rng, wild=rng.random() < 0.25) for _ in range(rng.randint(0, 6))]
+        if rng.random() < 0.3 and recs:
+            recs.insert(rng.randint(0, len(recs)), list(rng.choice(recs)))       # duplicate key: first wins
+        if rng.random() < 0.2:
+            recs.insert(rng.randint(0, len(recs)), [(0, "FOO"), (1, "not a class")])  # ignored
+        ver = rng.choice(["AC1015", "AC1018", "AC1032"])
+        try:
+            sec = ClassesSection(None, iter([load([(0, "SECTION"), (2, "CLASSES")])] + [load(r) for r in recs]))
+            col = CompiledCollector(ver)
+            sec.export_dxf(col)
+            assert col.tags[:2] == [(0, "SECTION"), (2, "CLASSES")] and col.tags[-1] == (0, "ENDSEC")
+            impl = "ok " + enc_tags(col.tags[2:-1])
+        except AssertionError:
+            raise
+        except Exception:  # noqa
+            impl = "none"
+        reqs.append(f"clsec|{int(ver >= 'AC1018')}|{enc_recs(recs)}")
+        metas.append((impl, len(recs) > 1))
+    _compare(ctx, "X5 CLASS entries", reqs, metas)
+
+
+def correspond_header_full(ctx):
+    """X6: HeaderSection load -> export as (name, value) groups: priority order, version window, unknown names, custom properties"""
+    from ezdxf.lldxf.tags import Tags
+    from ezdxf.sections.header import HeaderSection
+    from ezdxf.sections.headervars import HEADER_VAR_MAP
+
+    rng = ctx.rng("header-full")
+    plain = [n for n, d in HEADER_VAR_MAP.items() if d.code != 10 and n not in ("$ACADVER", "$ACADMAINTVER", "$XCLIPFRAME")]
+    by_window = {}
+    for n in plain:
+        by_window.setdefault((HEADER_VAR_MAP[n].mindxf, HEADER_VAR_MAP[n].maxdxf), []).append(n)
+    reqs, metas = [], []
+    for _ in range(ctx.n(900, 6000)):
+        groups = [("$ACADVER", "AC1015")]
+        for _ in range(rng.randint(0, 10)):
+            k = rng.randrange(10)
+            if k < 5:
+                n = rng.choice(by_window[rng.choice(sorted(by_window))])
+            elif k < 6:
+                n = rng.choice(["$ACMEVAR", "$FOREIGNSETTING", "$X"])
+            elif k < 7:
+                n = rng.choice(["$LASTSAVEDBY", "$HANDSEED", "$ACADVER"])
+            else:
+                n = rng.choice(["$CUSTOMPROPERTYTAG", "$CUSTOMPROPERTY"])
+            groups.append((n, rng.choice(["a", "b", "", "x y", "42", "7"])))
+        if rng.random() < 0.5:
+            k = rng.randint(1, len(groups))
+            pairs = []
+            for _ in range(rng.randint(1, 3)):
+                pairs += [("$CUSTOMPROPERTYTAG", rng.choice(["K", "L", ""])), ("$CUSTOMPROPERTY", rng.choice(["v", "w", ""]))]
+            groups[k:k] = pairs
+        if rng.random() < 0.3 and len(groups) > 2:
+            groups.insert(rng.randint(1, len(groups)), rng.choice(groups[1:]))   # a repeated name: later value, first position
+        text = "0\nSECTION\n2\nHEADER\n" + "".join(f"9\n{n}\n1\n{v}\n" for n, v in groups)
+        h = HeaderSection.load(Tags.from_text(text))
+        for ver in rng.sample(["AC1009", "AC1015", "AC1018", "AC1021", "AC1024", "AC1027", "AC1032"], 3):
+            col = CompiledCollector(ver)
+            h.export_dxf(col)
+            body = col.tags[2:-1]
+            assert col.tags[:2] == [(0, "SECTION"), (2, "HEADER")] and col.tags[-1] == (0, "ENDSEC") and len(body) % 2 == 0
+            out = [(body[i][1], body[i + 1][1]) for i in range(0, len(body), 2)]
+            assert all(body[i][0] == 9 for i in range(0, len(body), 2))
+            reqs.append(f"hdr|{int(ver[2:])}|{cps(ver)}|" + ";".join(f"{cps(a)}:{cps(b)}" for a, b in groups))
+            metas.append((";".join(f"{cps(a)}:{cps(b)}" for a, b in out), len(groups) > 2))
+            ctx.hist("X6 HEADER load/export", ver)
+    outs = ctx.driver("C02", reqs, build=DRIVER_DEPS)
+    for req, (impl, nontriv), model in zip(reqs, metas, outs):
+        ctx.count("X6 HEADER load/export", req, nontriv, sample={"request": req[:200], "impl": impl[:200], "model": model[:200]})
+        if impl != model:
+            ctx.disagree("X6 HEADER load/export", req[:3000], impl[:3000], model[:3000])
+    ctx.cov["disagreements_checked"] += len(reqs)
+
+
+def correspond_proxy_acds(ctx):
+    """X7: ACAD_PROXY_ENTITY load -> export (proxy subclass with binary chunks verbatim); X8: ACDSDATA section load -> export"""
+    from ezdxf.entities import factory
+    from ezdxf.lldxf.extendedtags import ExtendedTags
+    from ezdxf.lldxf.tags import Tags
+    from ezdxf.sections.acdsdata import AcDsDataSection
+
+    # E2: the inputs of document_level_counterexamples (Props/C02.lean) on the real code
+    def e2(name, got, want):
+        ctx.count("E1 counterexample theorems on real code", name, True, sample={"theorem": "document_level_counterexamples", "case": name, "impl": str(got)[:200]})
+        if got != want:
+            ctx.disagree("E1 counterexample theorems on real code", name, str(got), str(want))
+
+    three = _T(0, "ACAD_PROXY_ENTITY", 5, "A", 330, "B", 100, "AcDbEntity", 8, "0", 100, "AcDbProxyEntity", 90, "498", 310, "CAFE", 100, "AcDbLater", 1, "third")
+    e = factory.load(ExtendedTags.from_text(to_text(three)), None)
+    e.post_load_hook(_StubDoc([]))
+    col = CompiledCollector()
+    e.export_dxf(col)
+    e2("proxy-third-subclass", col.tags, three[:-2])
+    ahead = _T(0, "SECTION", 2, "ACDSDATA", 70, "2", 71, "2")
+    for name, recs, want in (("acds-no-records", [_T(0, "ACDSSCHEMA", 90, "0", 1, "AcDb3DSolid_ASM_Data")], []),
+                             ("acds-stray-tags", [_T(0, "ACDSRECORD", 90, "0", 91, "5", 2, "AcDbDs::ID", 280, "10", 320, "2A")],
+                              ahead + _T(0, "ACDSRECORD", 90, "0", 2, "AcDbDs::ID", 280, "10", 320, "2A") + [(0, "ENDSEC")])):
+        sec = AcDsDataSection(None, iter([Tags.from_text(to_text(r)) for r in [ahead] + recs]))
+        col = CompiledCollector()
+        sec.export_dxf(col)
+        e2(name, col.tags, want)
+    base = base_doc("AC1027")
+    try:
+        _doc_cycle(ctx, base, [[(0, "POLYLINE"), (5, "F001"), (330, base["msp"]), (100, "AcDbEntity"), (8, "0"), (100, "AcDb2dPolyline"), (66, "1")],
+                               [(0, "FOO"), (5, "F002"), (330, base["msp"])],
+                               [(0, "SEQEND"), (5, "F003"), (330, "F001"), (100, "AcDbEntity"), (8, "0")]], [], [])
+        e2("unknown-inside-polyline", "loaded", "DXFStructureError")
+    except Exception as ex:  # noqa
+        e2("unknown-inside-polyline", type(ex).__name__, "DXFStructureError")
+    ctx.cov["disagreements_checked"] += 4
+    rng = ctx.rng("proxy")
+    reqs, metas = [], []
+    for i in range(ctx.n(700, 5000)):
+        tags, alive, _ = gen_entity(rng, "ordered")
+        base = []
+        for t in tags[1:]:
+            if t[0] in (100, 1001) or t == (101, "Embedded Object"):
+                break
+            base.append(t)
+        xd = tags[next((k for k, t in enumerate(tags) if t[0] == 1001), len(tags)):]
+        data = "".join("%02X" % rng.randrange(256) for _ in range(rng.choice([4, 127, 130, 300])))
+        chunks = [data[j:j + 254] for j in range(0, len(data), 254)]
+        proxy = [(100, "AcDbProxyEntity"), (90, "498"), (91, str(rng.randint(500, 600))), (95, "33"), (70, "0"), (92, str(len(data) // 2))] + \
+                [(310, c) for c in chunks] + [(93, str(rng.randint(0, 4096)))] + [(310, "AB" * rng.randint(1, 30))] + \
+                [(c, hexh(rng)) for c in rng.sample([330, 340, 350, 360], rng.randint(0, 3))] + [(94, "0")]
+        k = rng.randrange(6)
+        subs = [(100, "AcDbEntity"), (8, "0")] + proxy
+        if k == 0:
+            subs += [(100, "AcDbLater"), (1, "dropped")]                         # a third subclass is not kept
+        elif k == 1:
+            subs += [(101, "Embedded Object"), (1, "dropped")]                   # embedded objects are not kept
+        elif k == 2:
+            subs = [(100, "AcDbEntity"), (8, "0")]                               # no proxy subclass
+        ctx.hist("X7 ACAD_PROXY_ENTITY", ["third-subclass", "embedded", "no-proxy-subclass", "plain", "plain", "plain"][k])
+        rec = [(0, "ACAD_PROXY_ENTITY")] + base + subs + xd
+        try:
+            e = factory.load(ExtendedTags.from_text(to_text(rec)), None)
+            assert type(e).__name__ == "ACADProxyEntity"
+            e.post_load_hook(_StubDoc(alive))
+            col = CompiledCollector()
+            e.export_dxf(col)
+            impl = "ok " + enc_tags(col.tags)
+        except AssertionError:
+            raise
+        except Exception as ex:  # noqa
+            impl = f"err other:{type(ex).__name__}"
+        reqs.append(f"proxy|{','.join(cps(h) for h in alive)}|{enc_tags(rec)}")
+        metas.append((impl, True))
+    _compare(ctx, "X7 ACAD_PROXY_ENTITY", reqs, metas)
+    rng = ctx.rng("acds")
+    reqs, metas = [], []
+    for i in range(ctx.n(600, 4000)):
+        head = [(0, "SECTION"), (2, "ACDSDATA"), (70, "2"), (71, str(rng.randint(1, 9)))]
+        recs = []
+        for _ in range(rng.randint(0, 5)):
+            k = rng.randrange(8)
+            if k < 2:
+                recs.append([(0, "ACDSSCHEMA"), (90, str(rng.randint(0, 5))), (1, "AcDb3DSolid_ASM_Data"), (2, "AcDbDs::ID"), (280, "10"), (91, "8"),
+                             (101, "ACDSRECORD"), (95, "0")])
+            elif k < 6:
+                data = "".join("%02X" % rng.randrange(256) for _ in range(rng.choice([1, 64, 127])))
+                recs.append([(0, "ACDSRECORD"), (90, str(rng.randint(0, 3))), (2, "AcDbDs::ID"), (280, "10"), (320, hexh(rng)),
+                             (2, "ASM_Data"), (280, "15"), (94, str(len(data))), (310, data), (310, data[::-1])])
+            elif k == 6:
+                # tags between the flags tag and the first (2, name) tag
+                recs.append([(0, "ACDSRECORD"), (90, "0"), (91, "5"), (1, "stray"), (2, "AcDbDs::ID"), (280, "10"), (320, hexh(rng))])
+            else:
+                recs.append(rng.choice([[(0, "ACDSRECORD"), (90, "1")], [(0, "ACDSRECORD")], [(0, "ACMEDATA"), (1, "x"), (310, "00FF")]]))
+        try:
+            sec = AcDsDataSection(None, iter([Tags.from_text(to_text(r)) for r in [head] + recs]))
+            col = CompiledCollector()
+            sec.export_dxf(col)
+            impl = "ok " + enc_tags(col.tags)
+        except Exception:  # noqa
+            impl = "none"
+        ctx.hist("X8 ACDSDATA", "with-records" if any(r[0][1] == "ACDSRECORD" for r in recs) else "no-records")
+        reqs.append("acds|" + enc_recs([head] + recs))
+        metas.append((impl, len(recs) > 0))
+    _compare(ctx, "X8 ACDSDATA", reqs, metas)
+
+
+
+def correspond_blocks(ctx):
+    """D2: the BLOCKS section of whole files through the real ezdxf.read -> write vs blocksPass"""
+    from ezdxf.entities import factory
+    from ezdxf.lldxf.const import DXFStructureError
+
+    dxfparse = _import_dxfparse()
+    registered = set(factory.ENTITY_CLASSES)
+    rng = ctx.rng("blocks")
+    reqs, metas = [], []
+    for i in range(ctx.n(160, 1200)):
+        ver = VERSIONS[i % len(VERSIONS)]
+        base = base_doc(ver)
+        secs = dict(base["sections"])
+        # table order of the BLOCK_RECORD entries
+        order, inside = [], False
+        for r in secs["TABLES"]:
+            if r[0] == (0, "TABLE"):
+                inside = (2, "BLOCK_RECORD") in r
+            elif r[0] == (0, "BLOCK_RECORD") and inside:
+                order.append(next(v for c, v in r if c == 2))
+        used, alive, extra, body = set(), [], [], []
+        link_error = False
+        for r in secs["BLOCKS"]:
+            body.append([(c, str(v)) for c, v in r])
+            if r[0] == (0, "BLOCK"):
+                name = next(v for c, v in r if c == 2)
+                if name in ("FB", "*Paper_Space0") and rng.random() < 0.8:
+                    recs, al, ex, (le, _) = gen_doc_records(rng, base, "ENTITIES", used)
+                    link_error = link_error or le
+                    body += recs
+                    alive += al
+                    extra += ex
+            elif r[0] == (0, "ENDBLK") and rng.random() < 0.15:
+                # an entity between ENDBLK and the next BLOCK: ignored by BlocksSection.load
+                recs, al, ex, _ = gen_doc_records(rng, base, "OBJECTS", used)
+                body += recs[:1]
+                extra += ex
+                ctx.hist("D2 BLOCKS section (whole files)", "stray-entity")
+        # the content of the base blocks (LINE in FB, in *Paper_Space0) stays in front of the generated records
+        try:
+            out, _ = _doc_cycle(ctx, base, None, [], extra, blk_recs=body)
+            impl = "ok " + enc_tags(_describe(out.get("BLOCKS", []), registered))
+        except DXFStructureError as e:
+            impl = "err link" if "or SEQEND" in str(e) else "err " + str(e)[:40]
+        ctx.hist("D2 BLOCKS section (whole files)", "link-error" if link_error else "ok")
+        reqs.append(f"blocks|{','.join(cps(h) for h in alive)}|{','.join(cps(n) for n in order)}|{enc_recs(body)}")
+        metas.append((impl, any(r[0][1] not in registered for r in body)))
+    _compare(ctx, "D2 BLOCKS section (whole files)", reqs, metas)
+
+
+
+def correspond_whole_file(ctx):
+    """D3: whole files through the real ezdxf.read -> write vs loadSaveFile (the function file_passthrough is about): section
+    order, BLOCKS / ENTITIES / OBJECTS content, unknown sections, EOF; HEADER / CLASSES / TABLES as one marker tag each"""
+    import ezdxf
+    from ezdxf.entities import factory
+    from ezdxf.lldxf.const import DXFStructureError
+
+    dxfparse = _import_dxfparse()
+    registered = set(factory.ENTITY_CLASSES)
+    rng = ctx.rng("whole-file")
+    reqs, metas = [], []
+    for i in range(ctx.n(90, 600)):
+        ver = VERSIONS[i % len(VERSIONS)]
+        base = base_doc(ver)
+        secs = dict(base["sections"])
+        order, inside = [], False
+        for r in secs["TABLES"]:
+            if r[0] == (0, "TABLE"):
+                inside = (2, "BLOCK_RECORD") in r
+            elif r[0] == (0, "BLOCK_RECORD") and inside:
+                order.append(next(v for c, v in r if c == 2))
+        used, alive, extra = set(), [], []
+        ent, al, ex, (le1, _) = gen_doc_records(rng, base, "ENTITIES", used)
+        alive += al
+        extra += ex
+        obj, al, ex, _ = gen_doc_records(rng, base, "OBJECTS", used)
+        alive += al
+        extra += ex
+        blk, le2 = [], False
+        for r in secs["BLOCKS"]:
+            blk.append([(c, str(v)) for c, v in r])
+            if r[0] == (0, "BLOCK") and next(v for c, v in r if c == 2) in ("FB", "*Paper_Space0") and rng.random() < 0.6:
+                recs, al, ex, (le, _) = gen_doc_records(rng, base, "ENTITIES", used)
+                le2 = le2 or le
+                blk += recs
+                alive += al
+                extra += ex
+        # unknown sections between and behind the managed ones
+        unknown = []
+        for n in rng.sample(["FOO", "ACME_DATA", "XYZSECTION", "THUMBNAILIMAGE"], rng.choice([0, 1, 2, 3])):
+            recs = [[(0, "SECTION"), (2, n)] + [t for t in body_tags(rng, rng.randint(0, 3)) if t[0] not in (101, 102)]]
+            for _ in range(rng.randint(0, 3)):
+                recs.append([(0, rng.choice(["ACMEREC", "FOOITEM", "X"]))] + body_tags(rng, rng.randint(0, 6)))
+            unknown.append((n, recs))
+        pos = rng.choice(["end", "middle"])
+        # foreign CLASS entries in front of / between the entries ezdxf.new() wrote, sometimes an ACDSDATA section
+        cls_recs = [[(c, str(v)) for c, v in r] for r in secs.get("CLASSES", [])]
+        seen = {(dict(r).get(1), dict(r).get(2)) for r in cls_recs}
+        for _ in range(rng.randint(0, 3)):
+            r = gen_class_record(rng, wild=False)
+            if (9 < 10) and (ver >= "AC1018") != any(c == 91 for c, _ in r):
+                r = [t for t in r if t[0] != 91] if ver < "AC1018" else r[:5] + [(91, "0")] + r[5:]
+            if (dict(r).get(1), dict(r).get(2)) not in seen:
+                seen.add((dict(r).get(1), dict(r).get(2)))
+                cls_recs.insert(rng.randint(0, len(cls_recs)), r)
+        acds = None
+        if rng.random() < 0.35:
+            acds = [[(0, "SECTION"), (2, "ACDSDATA"), (70, "2"), (71, "2")], [(0, "ACDSSCHEMA"), (90, "0"), (1, "AcDb3DSolid_ASM_Data")]]
+            for _ in range(rng.randint(0, 2)):
+                data = "".join("%02X" % rng.randrange(256) for _ in range(rng.choice([1, 64, 127])))
+                acds.append([(0, "ACDSRECORD"), (90, "0"), (2, "AcDbDs::ID"), (280, "10"), (320, hexh(rng)), (2, "ASM_Data"), (280, "15"),
+                             (94, str(len(data))), (310, data)])
+        file_recs = []     # the records of the whole file as compiled tags
+        for n, recs in base["sections"]:
+            if n == "HEADER":
+                hdr = [tuple(t) for t in recs[0][1:]]
+                k = next(k for k, t in enumerate(hdr) if t == (9, "$HANDSEED"))
+                hdr[k + 1] = (5, "F0000")
+                hdr = unflat([(c, str(v)) for c, v in hdr])
+                # foreign header content: custom properties (anywhere), an unknown variable (F24: not written)
+                for _ in range(rng.randint(0, 3)):
+                    kk = 2 * rng.randint(1, len(hdr) // 2)
+                    hdr[kk:kk] = [(9, "$CUSTOMPROPERTYTAG"), (1, rng.choice(["Author", "K", "ä"])), (9, "$CUSTOMPROPERTY"), (1, rng.choice(["me", "", "x y"]))]
+                if rng.random() < 0.3:
+                    kk = 2 * rng.randint(1, len(hdr) // 2)
+                    hdr[kk:kk] = [(9, "$ACMEVAR"), (70, "1")]
+                if rng.random() < 0.3:
+                    kk = next((q for q, t in enumerate(hdr) if t == (9, "$LASTSAVEDBY")), None)
+                    if kk is not None:
+                        del hdr[kk:kk + 2]
+                file_recs.append([(0, "SECTION"), (2, "HEADER")] + hdr)
+            else:
+                file_recs.append([(0, "SECTION"), (2, n)])
+                body = ent if n == "ENTITIES" else list(recs) + obj + extra if n == "OBJECTS" else blk if n == "BLOCKS" else \
+                    cls_recs if n == "CLASSES" else recs
+                file_recs += [[(c, str(v)) for c, v in r] for r in body]
+            file_recs.append([(0, "ENDSEC")])
+            if n == "OBJECTS" and acds is not None:
+                file_recs += acds + [[(0, "ENDSEC")]]
+            if pos == "middle" and n == "TABLES":
+                for _, ur in unknown:
+                    file_recs += ur + [[(0, "ENDSEC")]]
+        if pos != "middle":
+            for _, ur in unknown:
+                file_recs += ur + [[(0, "ENDSEC")]]
+        file_recs.append([(0, "EOF")])
+        tags = [t for r in file_recs for t in flat(r)]
+        try:
+            doc = ezdxf.read(io.StringIO(encode_ascii(tags)))
+            out = io.StringIO()
+            doc.write(out)
+            osecs, problems = dxfparse.split_file(dxfparse.parse_ascii(out.getvalue()))
+            desc = []
+            for n, recs in osecs:
+                if n == "TABLES":
+                    desc.append((0, n))
+                elif n == "HEADER":
+                    desc += [(0, "SECTION"), (2, n)] + [(c, str(v)) for r in recs for c, v in unflat(r) if (c, v) != (0, "<SECTION-TAGS>")] + [(0, "ENDSEC")]
+                elif n == "CLASSES":
+                    # the classes ezdxf registers itself at save time (`extra` of the model) are written behind the entries of the file
+                    mine = [r for r in recs if (dict(r).get(1), dict(r).get(2)) in seen]
+                    added = [r for r in recs if (dict(r).get(1), dict(r).get(2)) not in seen]
+                    if recs[:len(mine)] != mine:
+                        added = []   # not a suffix: keep everything, the comparison below reports it
+                        mine = recs
+                    ctx.hist("D3 whole files vs loadSaveFile", f"classes-added-by-ezdxf={len(added)}")
+                    desc += [(0, "SECTION"), (2, n)] + [(c, str(v)) for r in mine for c, v in r] + [(0, "ENDSEC")]
+                elif n in ("BLOCKS", "ENTITIES", "OBJECTS"):
+                    desc += [(0, "SECTION"), (2, n)] + _describe(recs, registered) + [(0, "ENDSEC")]
+                else:
+                    desc += [(0, "SECTION"), (2, n)]
+                    desc += [(c, str(v)) for r in recs for c, v in unflat(r) if (c, v) != (0, "<SECTION-TAGS>")]
+                    desc.append((0, "ENDSEC"))
+            desc.append((0, "EOF"))
+            impl = "ok " + enc_tags(desc)
+        except DXFStructureError as e:
+            impl = "err link" if "or SEQEND" in str(e) else "err " + str(e)[:40]
+        ctx.hist("D3 whole files vs loadSaveFile", "link-error" if (le1 or le2) else f"unknown-sections={len(unknown)}:{pos}")
+        # the model sees the managed sections it does not interpret as a head record only
+        short, skip = [], False
+        for r in file_recs:
+            if r[0] == (0, "SECTION"):
+                skip = r[1][1] in ("TABLES",)
+                short.append(r[:2] if skip else r)
+            elif r[0][1] in ("ENDSEC", "EOF"):
+                skip = False
+                short.append(r)
+            elif not skip:
+                short.append(r)
+        reqs.append(f"file|{int(ver[2:])}|{cps(base['msp'])}|{cps(base['psp'])}|{','.join(cps(h) for h in alive)}|{','.join(cps(n) for n in order)}|{enc_recs(short)}")
+        metas.append((impl, True))
+    # header variables ezdxf maintains itself (not foreign content): $HANDSEED grows with the handles drawn while loading
+    mask = {"$HANDSEED"}
+
+    def masked(line):
+        ts = _canon_line(line)
+        if isinstance(ts, str):
+            return ts
+        return [(c, "*") if k and ts[k - 1][0] == 9 and ts[k - 1][1] in mask else (c, v) for k, (c, v) in enumerate(ts)]
+
+    outs = ctx.driver("C02", reqs, build=DRIVER_DEPS)
+    for req, (impl, nontriv), model in zip(reqs, metas, outs):
+        ctx.count("D3 whole files vs loadSaveFile", req, nontriv, sample={"request": req[:200], "impl": impl[:200], "model": model[:200]})
+        if masked(impl) != masked(model):
+            lim = 10 ** 7 if os.environ.get("C02_DEBUG") else 3000
+            ctx.disagree("D3 whole files vs loadSaveFile", req[:lim], impl[:lim], model[:lim])
+    ctx.cov["disagreements_checked"] += len(reqs)
+
+
+
+def correspond_generic_hosts(ctx):
+    """X9: every registered entity class with the generic load/export: a default instance (factory.new) decorated at tag level with
+    application groups, extension dictionary, reactors and XDATA is loaded and exported by the real class; base class and XDATA part
+    vs exportGeneric (the body between them is the business of the class, C01)"""
+    from ezdxf.entities import factory
+    from ezdxf.lldxf.extendedtags import ExtendedTags
+
+    rng = ctx.rng("generic-hosts")
+    dxfparse = _import_dxfparse()
+    gen_types = _generic_types()
+    bodies, skipped = {}, []
+    for name in gen_types:
+        try:
+            e = factory.new(name)
+            col = CompiledCollector()
+            e.export_dxf(col)
+            tags = col.tags
+            i = next((k for k, t in enumerate(tags) if t[0] == 100), None)
+            if i is None or tags[0] != (0, name):
+                raise ValueError("no subclass marker")
+            j = next((k for k in range(1, len(tags)) if tags[k][0] == 0), len(tags))   # sub-records written by a wrapper
+            body = [t for t in tags[i:j] if t[0] != 1001]
+            if any(c == 1001 for c, _ in tags[i:j]) or any(t == (101, "Embedded Object") for t in body):
+                raise ValueError("default instance has XDATA / embedded object")
+            # the undecorated record must survive the real load -> export without a document
+            hc = 105 if name == "DIMSTYLE" else 5
+            e2 = factory.load(ExtendedTags.from_text(to_text([(0, name), (hc, "A1"), (330, "B1")] + body)), None)
+            e2.post_load_hook(_StubDoc([]))
+            e2.export_dxf(CompiledCollector())
+            bodies[name] = body
+        except Exception as ex:  # noqa
+            skipped.append(f"{name}:{type(ex).__name__}")
+    ctx.note(f"X9: {len(bodies)} of {len(gen_types)} generic classes have a usable default instance; skipped: {' '.join(skipped)[:300]}")
+    if len(bodies) < 45:
+        raise RuntimeError(f"X9: only {len(bodies)} generic classes usable: {skipped[:10]}")
+    reqs, metas = [], []
+    names = sorted(bodies)
+    for i in range(ctx.n(4, 30) * len(names)):
+        name = names[i % len(names)]
+        tags, alive, _ = gen_entity(rng, "ordered" if i % 3 else "shuffled")
+        base = []
+        for t in tags[1:]:
+            if t[0] in (100, 1001) or t == (101, "Embedded Object"):
+                break
+            base.append(t)
+        if name == "DIMSTYLE":
+            base = [(105, v) if (c == 5 and k == next((q for q, tt in enumerate(base) if tt[0] == 5), -1)) else (c, v) for k, (c, v) in enumerate(base)]
+        xd = tags[next((k for k, t in enumerate(tags) if t[0] == 1001), len(tags)):]
+        rec = [(0, name)] + base + bodies[name] + xd
+        try:
+            e = factory.load(ExtendedTags.from_text(to_text(rec)), None)
+            e.post_load_hook(_StubDoc(alive))
+            col = CompiledCollector()
+            e.export_dxf(col)
+            out = col.tags
+            j = next((k for k in range(1, len(out)) if out[k][0] == 0), len(out))
+            out = out[:j]
+            a = next((k for k, t in enumerate(out) if t[0] == 100), len(out))
+            b = next((k for k, t in enumerate(out) if t[0] == 1001), len(out))
+            impl = "ok " + enc_tags(out[:a]) + "#" + enc_tags(out[b:])
+        except Exception as ex:  # noqa
+            impl = f"err other:{type(ex).__name__}"
+        ctx.hist("X9 generic entity classes", name)
+        reqs.append(f"generic|{','.join(cps(h) for h in alive)}|{enc_tags(rec)}")
+        metas.append((impl, True))
+    outs = ctx.driver("C02", reqs, build=DRIVER_DEPS)
+    for req, (impl, nontriv), model in zip(reqs, metas, outs):
+        ctx.count("X9 generic entity classes", req, nontriv, sample={"request": req[:200], "impl": impl[:200], "model": model[:200]})
+        ci = [_canon_line("ok " + p) for p in impl[3:].split("#")] if impl.startswith("ok ") else impl
+        cm = [_canon_line("ok " + p) for p in model[3:].split("#")] if model.startswith("ok ") else model
+        if ci != cm:
+            ctx.disagree("X9 generic entity classes", req[:3000], impl[:3000], model[:3000])
+    ctx.cov["disagreements_checked"] += len(reqs)
+
+
+def _generic_types():
+    """the generic classes as regenerated into Gen/StorageTables.lean (same classification)"""
+    import re
+
+    from runner import LEAN
+    txt = (LEAN / "EzdxfVerif" / "Gen" / "StorageTables.lean").read_text()
+    m = re.search(r"def genericTypes : List \(List Nat\) := \[(.*?)\]\ndef specialTypes", txt, re.S)
+    return ["".join(chr(int(x)) for x in grp.split(",")) for grp in re.findall(r"\[([0-9, ]+)\]", m.group(1))]
+
+
+
+def correspond_table_head(ctx):
+    """X10: (0, TABLE) records with foreign base-class structures and XDATA through the real TableHead load -> export"""
+    from ezdxf.entities import factory
+    from ezdxf.lldxf.const import DXFStructureError
+    from ezdxf.lldxf.extendedtags import ExtendedTags
+
+    rng = ctx.rng("table-head")
+    reqs, metas = [], []
+    for i in range(ctx.n(700, 5000)):
+        tags, alive, _ = gen_entity(rng, ["ordered", "shuffled", "malformed"][i % 3] if i % 7 else "malformed")
+        base = []
+        for t in tags[1:]:
+            if t[0] in (100, 1001) or t == (101, "Embedded Object"):
+                break
+            base.append(t)
+        xd = tags[next((k for k, t in enumerate(tags) if t[0] == 1001), len(tags)):]
+        name = rng.choice(["LAYER", "LTYPE", "DIMSTYLE", "APPID", "ACME_TABLE", ""])
+        k = rng.randrange(6)
+        head = [(0, "TABLE"), (2, name)]
+        if k == 0:
+            head = [(0, "TABLE")]                                  # no name tag
+        elif k == 1:
+            base = base[:1] + [(2, "LATE")] + base[1:]              # a second name tag
+        body = [(100, "AcDbSymbolTable"), (70, str(rng.randint(0, 9)))] + ([(100, "AcDbDimStyleTable")] if name == "DIMSTYLE" else [])
+        if k == 2:
+            body += [(71, "1"), (340, hexh(rng))]                   # the DIMSTYLE table of AutoCAD lists handles here: not kept
+        rec = head + base + body + xd
+        try:
+            e = factory.load(ExtendedTags.from_text(to_text(rec)), None)
+            assert type(e).__name__ == "TableHead"
+            e.post_load_hook(_StubDoc(alive))
+            col = CompiledCollector()
+            e.export_dxf(col)
+            impl = "ok " + enc_tags(col.tags)
+        except DXFStructureError as ex:
+            m = str(ex)
+            impl = "err " + ("missingAppClose" if "closing" in m else "xdictError" if "XDICTIONARY" in m else "unexpectedTag")
+        except AssertionError:
+            impl = "err noType"
+        except ValueError as ex:
+            impl = "err " + ("badReactor" if "base 16" in str(ex) else "noName" if type(ex).__name__ == "DXFValueError" else "other:ValueError")
+        except Exception as ex:  # noqa
+            impl = f"err other:{type(ex).__name__}"
+        ctx.hist("X10 TABLE heads", ["no-name", "two-names", "extra-body", "plain", "plain", "plain"][k])
+        reqs.append(f"thead|{','.join(cps(h) for h in alive)}|{cps('0')}|{enc_tags(rec)}")
+        metas.append((impl, True))
+    _compare(ctx, "X10 TABLE heads", reqs, metas)
+
+
+
+def correspond_dictionary(ctx):
+    """X11: DICTIONARY entries (the map from names to foreign objects, e.g. extension dictionary -> XRECORD) through the real
+    Dictionary load -> post_load_hook -> export"""
+    from ezdxf.entities import factory
+    from ezdxf.entities.dxfentity import DXFEntity
+    from ezdxf.lldxf.extendedtags import ExtendedTags
+
+    rng = ctx.rng("dictionary")
+    reqs, metas = [], []
+    # the inputs of dictionary_counterexamples (Props/C02.lean)
+    for name, sub, want in (("dict-mixed-codes", _T(3, "A", 350, "1", 3, "B", 360, "2"), _T(3, "A", 360, "1", 3, "B", 360, "2")),
+                            ("dict-repeated-name", _T(3, "A", 350, "1", 3, "B", 350, "2", 3, "A", 350, "3"), _T(3, "A", 350, "3", 3, "B", 350, "2")),
+                            ("dict-empty-handle", _T(3, "A", 350, "", 3, "B", 350, "2"), _T(3, "B", 350, "2"))):
+        e = factory.load(ExtendedTags.from_text(to_text([(0, "DICTIONARY"), (5, "A1"), (330, "B1"), (100, "AcDbDictionary")] + sub)), None)
+        e.post_load_hook(_StubDoc([]))
+        col = CompiledCollector()
+        e.export_dxf(col)
+        got = [t for t in col.tags if t[0] in (3, 350, 360)]
+        ctx.count("E1 counterexample theorems on real code", name, True, sample={"theorem": "dictionary_counterexamples", "case": name, "impl": str(got)})
+        if got != want:
+            ctx.disagree("E1 counterexample theorems on real code", name, str(got), str(want))
+    ctx.cov["disagreements_checked"] += 3
+    keys = ["K1", "K2", "ACAD_GROUP", "FOREIGN_DATA", "", "k1"]
+    handles = ["C1", "C2", "1F", "0", "", "ABCDEF"]
+    for i in range(ctx.n(1500, 12000)):
+        sub = []
+        wellformed = i % 3 == 0
+        if wellformed:
+            code = rng.choice([350, 360])
+            for k in rng.sample(keys[:4] + ["X", "Y"], rng.randint(0, 5)):
+                sub += [(3, k), (code, rng.choice(handles[:3] + ["ABCDEF"]))]
+            if rng.random() < 0.5:
+                sub = [(280, str(rng.randint(0, 1))), (281, str(rng.randint(0, 5)))] + sub
+        else:
+            for _ in range(rng.randint(0, 10)):
+                c = rng.choice([3, 3, 350, 350, 360, 280, 281, 1, 90, 330])
+                v = rng.choice(keys) if c == 3 else rng.choice(handles) if c in (350, 360, 330) else str(rng.randint(0, 1)) if c in (280, 281, 90) else "x"
+                sub.append((c, v))
+        rec = [(0, "DICTIONARY"), (5, "A1"), (330, "B1"), (100, "AcDbDictionary")] + sub
+        alive = rng.sample(handles[:3], rng.randint(0, 3))
+        try:
+            e = factory.load(ExtendedTags.from_text(to_text(rec)), None)
+            assert type(e).__name__ == "Dictionary"
+            sdoc = _StubDoc([])
+            sdoc.entitydb = {h: DXFEntity.new(handle=h) for h in alive}   # real entity objects: export reads value.dxf.handle
+            e.post_load_hook(sdoc)
+            col = CompiledCollector()
+            e.export_dxf(col)
+            k = next(q for q, t in enumerate(col.tags) if t == (100, "AcDbDictionary"))
+            impl = "ok " + enc_tags([t for t in col.tags[k:] if t[0] in (3, 350, 360)])
+        except AssertionError:
+            raise
+        except Exception as ex:  # noqa
+            impl = f"err other:{type(ex).__name__}"
+        ctx.hist("X11 DICTIONARY entries", "pairs" if wellformed else "arbitrary")
+        reqs.append("dict|" + enc_tags(sub))
+        metas.append((impl, len(sub) > 1))
+    _compare(ctx, "X11 DICTIONARY entries", reqs, metas)
+
+
+
+def correspond_header_tags(ctx):
+    """X6b: the HEADER section at tag level (header_validator, group_tags, value group codes, custom properties) incl. malformed
+    tag sequences through the real HeaderSection.load + export_dxf vs headerSectionPass"""
+    from ezdxf.lldxf.tags import Tags
+    from ezdxf.sections.header import HeaderSection
+    from ezdxf.sections.headervars import HEADER_VAR_MAP
+
+    rng = ctx.rng("header-tags")
+    plain = [n for n, d in HEADER_VAR_MAP.items() if d.code != 10]
+    reqs, metas = [], []
+    for i in range(ctx.n(700, 5000)):
+        tags = [(9, "$ACADVER"), (1, "AC1015")]
+        for _ in range(rng.randint(0, 8)):
+            k = rng.randrange(12)
+            if k < 6:
+                n = rng.choice(plain)
+                tags += [(9, n), (HEADER_VAR_MAP[n].code if rng.random() < 0.8 else 1, rng.choice(["1", "0", "7"]))]
+            elif k < 8:
+                tags += [(9, "$CUSTOMPROPERTYTAG"), (1, rng.choice(["K", ""])), (9, "$CUSTOMPROPERTY"), (1, rng.choice(["v", "x y"]))]
+            elif k == 8:
+                tags += [(9, rng.choice(["$ACMEVAR", "$X"])), (rng.choice([1, 70, 40]), "1")]
+            elif k == 9:
+                tags += [(9, rng.choice(["NODOLLAR", ""])), (1, "x")]          # DXFValueError of the validator
+            elif k == 10:
+                tags += [(rng.choice([1, 70, 0 + 3]), "$LTSCALE"), (40, "1.0")]  # a name tag with another group code
+            else:
+                tags += rng.choice([[(9, "$LTSCALE")], [(9, "$LTSCALE"), (9, "$ORTHOMODE"), (70, "1")], [(9, "$LTSCALE"), (40, "1.0"), (40, "2.0")]])
+        ver = rng.choice(["AC1015", "AC1018", "AC1024", "AC1032"])
+        try:
+            h = HeaderSection.load(Tags.from_text("0\nSECTION\n2\nHEADER\n" + to_text(tags)))
+            col = CompiledCollector(ver)
+            h.export_dxf(col)
+            impl = "ok " + enc_tags(col.tags)
+        except Exception:  # noqa  (DXFStructureError, DXFValueError)
+            impl = "none"
+        ctx.hist("X6b HEADER at tag level", impl[:4].strip())
+        reqs.append(f"hsec|{int(ver[2:])}|{enc_tags(tags)}")
+        metas.append((impl, len(tags) > 2))
+    _compare(ctx, "X6b HEADER at tag level", reqs, metas)
+
+
 def correspond(ctx):
     import logging
 
@@ -1749,6 +3046,16 @@ def correspond(ctx):
     correspond_structure(ctx)
     correspond_header_classes(ctx)
     correspond_xrecord(ctx)
+    correspond_document(ctx)
+    correspond_blocks(ctx)
+    correspond_whole_file(ctx)
+    correspond_classes_full(ctx)
+    correspond_header_full(ctx)
+    correspond_header_tags(ctx)
+    correspond_proxy_acds(ctx)
+    correspond_generic_hosts(ctx)
+    correspond_table_head(ctx)
+    correspond_dictionary(ctx)
 
 
 def replay(ctx, rep):
